@@ -31,6 +31,9 @@ def run(chk):
     plan = [
         dict(flavour="asan-ubsan", scen="glob", runs=(260, 8000), opts={"cb": 1, "globalDomain": 1, "varyScale": 10, "zeroAreaMovable": 1, "maxMovable": 14}),
         dict(flavour="rel", scen="glob", runs=(260, 8000), opts={"cb": 1, "globalDomain": 1, "varyScale": 10, "zeroAreaMovable": 1, "maxMovable": 20, "maxNets": 20}),
+        # large designs: every cell area below 2^30 but their sum beyond 2^31 (and often in the band where a 32-bit sum turns negative)
+        dict(flavour="rel", scen="glob", runs=(200, 6000), opts={"cb": 1, "globalDomain": 1, "hugeArea": 1, "maxMovable": 40, "utilLo": 0.2, "utilHi": 0.9,
+                                                                 "multiRow": 0, "maxNets": 20, "maxFixed": 2}),
         # tiny cells: rows one unit high, sparse, many fixed cells and pads (total movable area comparable to the number of cells)
         dict(flavour="rel", scen="glob", runs=(200, 6000), opts={"cb": 1, "globalDomain": 1, "unitRows": 1, "utilHi": 0.12, "maxFixed": 10, "zeroAreaMovable": 1}),
     ]
